@@ -206,3 +206,14 @@ Proof. exact source_C09_TransportLayerCC_marshal_never_panics. Qed.
 Print Assumptions C09_src_TransportLayerCC_marshal_never_panics.
 End C09_SourceTheorems.
 (* END source-translation *)
+
+(* BEGIN reflection-generic (proofs: Proofs/ReflectWrite.v).  The reflective writer (the part of re-encoding an extended
+   report that is not translated from the source) returns bytes or an error for every descriptor, value and room. *)
+From RTCP Require Lib.Reflect Proofs.ReflectWrite.
+Module C09_ReflectGeneric.
+Import RTCP.Lib.Reflect.
+Theorem C09_reflect_write_never_panics : forall t v room, write t v room <> Panic /\ write t v room <> Fuel.
+Proof. exact ReflectWrite.write_never_panics. Qed.
+Print Assumptions C09_reflect_write_never_panics.
+End C09_ReflectGeneric.
+(* END reflection-generic *)
